@@ -53,7 +53,7 @@ func classifyPanic(r interface{}) int {
 		return panFull
 	case contains(s, "divide by zero"):
 		return panDivZero
-	case contains(s, "nil pointer"), contains(s, "invalid memory address"):
+	case contains(s, "nil pointer"), contains(s, "invalid memory address"), contains(s, "called using nil"):
 		return panNil
 	}
 	return panOther
